@@ -257,7 +257,11 @@ def check(ctx: Ctx, aspects=("remove", "log", "pop")) -> None:
                     else:
                         ctx.violated(f, f.node, f"reaper: {label}", "present on every path that reaps", f"self.{attr} is left as it is on [" + p.describe()[:100] + "]")
         if "log" in aspects and not found["log"] and not nothing_to_do:
-            ctx.violated(f, f.node, "reaper: one expiry record per expired order", "present on every path that reaps", "no record is built on [" + p.describe()[:100] + "]")
+            handed = [e for e in p.walk_events(True) if e.kind == "call" and e.name in ("append", "extend") and p.exit[0] == "return" and p.exit[1] is not None and e.recv == p.exit[1]]
+            if handed:
+                ctx.unrec(f, f.node, "reaper: one expiry record per expired order", "records that were not built during the sweep (prepared earlier) are handed back: what they describe at that moment is not decided")
+            else:
+                ctx.violated(f, f.node, "reaper: one expiry record per expired order", "present on every path that reaps", "no record is built on [" + p.describe()[:100] + "]")
 
         def every_iteration(e: Event, path: Path, loops_, label: str) -> None:
             # the site is reached on every non-raising path of each enclosing loop body
